@@ -215,8 +215,9 @@ def run_coq_cases(terms, imports, tag, timeout=900):
             f.write("Definition cases : list string := [\n")
             f.write(";\n".join("  (" + terms[i] + ")" for i in idx))
             f.write("\n].\nEval vm_compute in cases.\n")
-        rc, out = run(["timeout", str(timeout), "coqc", "-noglob", "-Q", COQ, "VF", "-w", "-notation-overridden", path],
-                      cwd=d, timeout=timeout + 30)
+        # long histories make deep (non tail-recursive) string concatenations: lift the stack limit for the evaluator
+        rc, out = run(["sh", "-c", "ulimit -s unlimited 2>/dev/null || ulimit -s 4000000 2>/dev/null; exec timeout %d coqc -noglob -Q '%s' VF -w -notation-overridden '%s'"
+                       % (timeout, COQ, path)], cwd=d, timeout=timeout + 30)
         if rc != 0:
             return k, None, out[-2000:]
         strs = re.findall(r'"([^"]*)"', out)
